@@ -60,6 +60,7 @@ type c15Case struct {
 	// observations
 	CloseErr string   `json:"close_err,omitempty"`
 	Table    scanOut  `json:"table"`
+	Absent   [][]byte `json:"absent,omitempty"` // accepted keys that Contains / Get of the re-opened table deny
 	Meta     metaOut  `json:"meta"`
 	IdxPay   [][]byte `json:"-"`
 	IndexLen int      `json:"index_len"`
@@ -131,6 +132,15 @@ func (c *c15Case) Exec() {
 	c.Meta = metaOf(r.MetaData())
 	it, err := r.Scan()
 	c.Table = drainTable(it, err, len(c.Calls)+3)
+	// every key the scan shows must also be found by the point lookups (bloom filter and index)
+	c.Absent = nil
+	for _, kv := range c.Table.KVs {
+		if ok, err := r.Contains(kv.K); err != nil || !ok {
+			c.Absent = append(c.Absent, kv.K)
+		} else if _, err := r.Get(kv.K); err != nil {
+			c.Absent = append(c.Absent, kv.K)
+		}
+	}
 	_ = filepath.Join
 }
 
@@ -168,6 +178,9 @@ func (c *c15Case) Oracle() (bool, string) {
 	}
 	if c.Table.Err != "" || !tblEq(c.Table.KVs, acc) {
 		return false, fmt.Sprintf("table content differs from the successfully written pairs (err=%q, %d entries, want %d)", c.Table.Err, len(c.Table.KVs), len(acc))
+	}
+	if len(c.Absent) > 0 {
+		return false, fmt.Sprintf("the accepted key %x is in the table but Contains / Get deny it (%d such keys)", c.Absent[0], len(c.Absent))
 	}
 	nulls := 0
 	for _, kv := range acc {
@@ -253,7 +266,7 @@ func genC15(r *rand.Rand, tier string) []Case {
 	bufs := []int{1, 7, 64, 4096}
 	var cases []Case
 	for i := 0; i < n; i++ {
-		c := &c15Case{Opts: tblOpts{IndexComp: r.Intn(4), DataComp: r.Intn(4), BloomN: 100, BloomP: 0.01, WBuf: bufs[r.Intn(len(bufs))]}, Mag: i%3 == 1}
+		c := &c15Case{Opts: tblOpts{IndexComp: r.Intn(4), DataComp: r.Intn(4), BloomN: []uint64{100, 100, 3, 1}[i%4], BloomP: 0.01, WBuf: bufs[r.Intn(len(bufs))]}, Mag: i%3 == 1}
 		ncalls := r.Intn(25)
 		cur := 0
 		for j := 0; j < ncalls; j++ {
